@@ -21,7 +21,7 @@ import (
 // (so the verdict is deterministic) and were calibrated on the unchanged tree: over the whole
 // quick enumeration the largest benign case (pools just emptied by a GC cycle, request body
 // decoded by every binder, all header maps built) stays below 25% of the budget - the measured
-// fraction is written into every evidence file as alloc_budget.max_fraction_used.
+// fraction is written into every evidence file (alloc_budget.max_fraction_used_by_cases_within_budget).
 const (
 	budgetA = 1 << 20 // 1 MiB per connection
 	budgetB = 512     // bytes per request byte
